@@ -33,6 +33,9 @@ def handle (allToks : List String) : String :=
   | none =>
   match handleJwe toks tbl with
   | some r => r
+  | none =>
+  match handleJwt toks tbl with
+  | some r => r
   | none => "bad-op"
 
 partial def loop (hin hout : IO.FS.Stream) : IO Unit := do
